@@ -1,6 +1,6 @@
 (* C04 — Filter comparisons follow the RFC 9535 comparison rules.  Statements only. *)
 From Coq Require Import List NArith ZArith Bool.
-From JP Require Import Base Ast Eval ValueModel Spec Known WellFormed ValueFacts Refine MathCompare.
+From JP Require Import Base Ast Eval ValueModel Spec Known WellFormed ValueFacts Refine MathCompare SingularFacts.
 Import ListNotations.
 
 (* the code's comparison of two operands (literal / singular query result / function result, each
@@ -73,6 +73,20 @@ Proof. exact lt_only_within_kind. Qed.
 (* two empty query results are equal, an empty result is never equal to a value *)
 Theorem C04_nothing : forall v, rfc_eq None None = true /\ rfc_eq None (Some v) = false /\ rfc_eq (Some v) None = false.
 Proof. intros v. repeat split. Qed.
+
+(* a singular query as operand (RFC 9535 2.3.5.1, 2.3.5.2.2): for every document, current node and operand, the query selects no
+   node and the operand is Nothing, or it selects exactly one node and the operand is that node's value; "several nodes" cannot
+   happen (SingularFacts.v), so Nothing means an empty nodelist and nothing else *)
+Theorem C04_singular_operand : forall rf rs veq major root q cur,
+  (r_squery root q cur = [] /\ r_comparable rf rs veq major root (CSq q) cur = None)
+  \/ (exists n, r_squery root q cur = [n] /\ r_comparable rf rs veq major root (CSq q) cur = Some (snd n)).
+Proof. exact singular_operand. Qed.
+Print Assumptions C04_singular_operand.
+(* both cases occur: @.a on {"a":7} and on {"b":7} *)
+Example C04_singular_operand_example :
+  r_squery JNull (SqCur [SqName [97]%N]) (JObj [([97]%N, JNum (NInt 7))]) = [([SName [97]%N], JNum (NInt 7))]
+  /\ r_squery JNull (SqCur [SqName [97]%N]) (JObj [([98]%N, JNum (NInt 7))]) = [].
+Proof. vm_compute. split; reflexivity. Qed.
 
 Example C04_examples :
   rfc_compare OpEq (Some (JNum (NInt 1))) (Some (JNum (NFlt (1, 0)%Z))) = true
